@@ -42,6 +42,9 @@ func (f GlobFinder) Find() (entries []Entry, err error) {
 		}
 
 		for _, path := range matches {
+			// A pattern without meta characters is returned as it was typed (./rules/a.yml),
+			// rules are matched and reported by their clean path.
+			path = filepath.Clean(path)
 			if path == ".git" && isDir(path) {
 				slog.Debug(
 					"Excluding git directory from glob results",
